@@ -249,6 +249,18 @@ Theorem C01_excess_is_exactly_donations_plus_odd_units : forall ops w d,
   good_run w ops -> asset_denom d -> slackP (run w ops) d = slackP w d + ledger w ops d.
 Proof. exact excess_ledger. Qed.
 
+(* ... stated from genesis: in every world reached by ANY history (not signed by the pool manager), for every continuation made
+   of covered operations that pass the run-time side conditions, the excess moves exactly by the ledger *)
+Theorem C01_excess_ledger_in_every_reachable_world : forall g w0 ops1 ops2 d,
+  genesis_world g = Ok w0 -> 0 <= amount_of (fm_create_fee (g_fm g)) ->
+  NoDup (map denom_of (g_tf_fee g)) -> (forall f, In f (g_tf_fee g) -> 0 <= amount_of f <= HALF_U128) ->
+  0 <= amount_of (g_pm_fee g) <= HALF_U128 ->
+  Forall op_okP ops1 ->
+  let w := run w0 ops1 in
+  Forall covered_op ops2 -> Forall op_okP ops2 -> fc_ok_run w ops2 = true -> asset_denom d ->
+  slackP (run w ops2) d = slackP w d + ledger w ops2 d.
+Proof. exact reachable_excess_ledger. Qed.
+
 Theorem C01_ledger_entries_are_never_negative : forall w o d, covered_op o -> 0 <= gift w o d.
 Proof. exact gift_nonneg. Qed.
 
@@ -283,3 +295,4 @@ Print Assumptions C01_excess_through_a_locked_single_asset_deposit.
 Print Assumptions C01_excess_through_epoch_manager_and_fee_collector_transactions.
 Print Assumptions C01_excess_through_farm_manager_transactions.
 Print Assumptions C01_excess_through_any_farm_manager_transaction.
+Print Assumptions C01_excess_ledger_in_every_reachable_world.
